@@ -32,6 +32,7 @@ def check(ctx: Ctx):
     io.check_sequence_keys(ctx, f"{EM}.EmulsionTimeCourse.to_file", f"{EM}.EmulsionTimeCourse.from_file", "_write_hdf_dataset", "EmulsionTimeCourse")
     io.check_sequence_keys(ctx, f"{TR}.DropletTrackList.to_file", f"{TR}.DropletTrackList.from_file", "_write_hdf_dataset", "DropletTrackList")
     io.check_timecourse_time(ctx)
+    io.check_pair_iteration(ctx)
     m = ctx.model
     io.check_time_column(ctx)
     # readers rebuild collections through append(..., time=stored): 0.0 is a valid stored time, NaN a valid stored width,
@@ -52,7 +53,7 @@ def check(ctx: Ctx):
     ctx.expect("COPYALL", 2)
     io.check_exact_eq(ctx)
     io.check_layouts(ctx)
-    ctx.expect("IOAGREE", 50)
+    ctx.expect("IOAGREE", 52)
     ctx.expect("LAYOUT", 5)
     ctx.trust("h5py / NumPy store and load structured arrays bit-exactly", "a 6-digit zero-padded key preserves order for up to 10^6 members")
     ctx.assume("partial files after an exception in a later member are not analysed")
